@@ -16,6 +16,7 @@ package agent
 import (
 	"bytes"
 	"encoding/binary"
+	"io"
 	"net"
 
 	"github.com/honeytrap/protocol"
@@ -38,8 +39,9 @@ func (d *Decoder) ReadData() []byte {
 
 	l := d.ReadUint16()
 
+	// a single Read on the buffered reader returns at most what its buffer holds (4 KiB)
 	buffer := make([]byte, l)
-	if _, err := d.Read(buffer[:]); err != nil {
+	if _, err := io.ReadFull(d, buffer[:]); err != nil {
 		d.LastError = err
 		return []byte{}
 	}
@@ -55,7 +57,7 @@ func (d *Decoder) ReadString() string {
 	l := d.ReadUint16()
 
 	buffer := make([]byte, l)
-	if _, err := d.Read(buffer[:]); err != nil {
+	if _, err := io.ReadFull(d, buffer[:]); err != nil {
 		d.LastError = err
 		return ""
 	}
